@@ -623,6 +623,10 @@ def read_zlib_chunks(
         if decomp_obj.unconsumed_tail:
             raise zlib.error("decompressed data exceeds expected size")
         decomp_len += len(decomp)
+        if decomp_len > max_decomp:
+            # Stop right here: otherwise ``remaining`` would be 0 on the next
+            # round, which zlib takes to mean "no limit".
+            raise zlib.error("decompressed data exceeds expected size")
         decomp_chunks.append(decomp)
         unused = decomp_obj.unused_data
         if unused:
@@ -702,6 +706,10 @@ def read_zlib_chunks_at(
             if decomp_obj.unconsumed_tail:
                 raise zlib.error("decompressed data exceeds expected size")
             decomp_len += len(decomp)
+            if decomp_len > max_decomp:
+                # Stop right here: otherwise ``remaining`` would be 0 on the
+                # next round, which zlib takes to mean "no limit".
+                raise zlib.error("decompressed data exceeds expected size")
             decomp_chunks.append(decomp)
             unused = decomp_obj.unused_data
             if unused:
